@@ -608,6 +608,7 @@ fn main() {
             1,
             Acc::default,
             |acc, i| {
+                acc.at(100, i);
                 let e = flat[i as usize];
                 for cond in CONDS {
                     for c in 0..=255u8 {
@@ -629,6 +630,7 @@ fn main() {
             32,
             Acc::default,
             |acc, idx| {
+                acc.at(200, idx);
                 let (i, j) = ((idx / n) as usize, (idx % n) as usize);
                 for ea in &elems[i] {
                     for eb in &elems[j] {
@@ -652,6 +654,7 @@ fn main() {
             16,
             Acc::default,
             |acc, i| {
+                acc.at(300, i);
                 let bare = all1[i as usize];
                 // bounds: every hint configuration x every bound x 5 operations
                 for iv in with_hints(1, bare, i as usize, &GRID) {
@@ -689,6 +692,7 @@ fn main() {
                 2,
                 Acc::default,
                 |acc, i| {
+                    acc.at(400 + w, i);
                     let (iv, dom) = (&all[i as usize], &all_doms[i as usize]);
                     for c in wide_bounds(iv, thorough) {
                         for cond in CONDS {
@@ -718,6 +722,7 @@ fn main() {
             256,
             Acc::default,
             |acc, idx| {
+                acc.at(500 + w, idx);
                 let (i, j) = ((idx / nn) as usize, (idx % nn) as usize);
                 acc.states += 1;
                 intersect_wide(ctx, acc, &one[i], &one_doms[i], &one[j], &one_doms[j]);
@@ -738,6 +743,7 @@ fn main() {
             1,
             Acc::default,
             |acc, i| {
+                acc.at(600, i);
                 let (d, dom) = (&datas[i as usize], &data_doms[i as usize]);
                 for cond in CONDS {
                     for c in 0..=255u8 {
@@ -753,6 +759,7 @@ fn main() {
             64,
             Acc::default,
             |acc, idx| {
+                acc.at(700, idx);
                 let (i, j) = ((idx / n) as usize, (idx % n) as usize);
                 acc.states += 1;
                 data_intersect(ctx, acc, &datas[i], &data_doms[i], &datas[j], &data_doms[j]);
@@ -776,6 +783,7 @@ fn main() {
     ctx.assume("precision is not required: Ok(R) with γ(R) not a subset of γ(A), or Ok although nothing satisfies the condition, are counted as statistics only (the trait documents an upper bound)");
     ctx.assume("DataDomain: γ(D) = absolute values ∪ (identifier, offset) pairs, everything if the top flag is set; distinct identifiers denote distinct bases (the reading of DESIGN.md)");
     ctx.assume("widths 2,4,8: intersections whose emptiness cannot be decided by a search of <= 65536 steps are left out (counted in stats; 0 for the stride alphabet used)");
+    emit_violations(ctx);
     ctx.finish(
         "one case = (operation, value incl. hints, bound) or (intersect, value, value); the real method is called once per case and its Ok/Err result judged against S = members satisfying the condition; non-trivial = S is neither empty nor all of γ(A) (the condition really splits the value)",
         true,
